@@ -156,12 +156,17 @@ def ns_make(variant, N):
         labels = []
     elif variant == "tlabels":
         labels = ["T2", "T1", "T4"]
+    elif variant == "renamed":
+        # a namespace with a history: T3 was looked up by label and has been renamed since (the simulators name new taxa T1, T2, ...)
+        ns = dendropy.TaxonNamespace(["T1", "T2", "T3"])
+        ns.get_taxon("T3").label = "outgroup"
+        return ns
     else:
         raise KeyError(variant)
     return dendropy.TaxonNamespace(labels)
 
 
-NS_VARIANTS = ["none", "exact", "bigger", "smaller", "empty", "tlabels"]
+NS_VARIANTS = ["none", "exact", "bigger", "smaller", "empty", "tlabels", "renamed"]
 
 
 # ----------------------------------------------------------------------------- kind: bd
